@@ -1701,7 +1701,9 @@ def max(a, axis=None):  # noqa: A001
 amin, amax = min, max
 
 
-def mean(a, axis=None):
+def mean(a, axis=None, dtype=None, keepdims=False):
+    if keepdims:
+        raise Unsupported("mean keepdims")
     a = asarray(a)
     s = sum(a, axis)
     cnt = len(a.offs) if axis is None else a.shape_cap[axis]
@@ -2403,3 +2405,32 @@ class errstate:
 
     def __exit__(self, *a):
         return False
+
+
+# ------------------------------------------------------------------ calls with arguments a shim function does not model are 'unsupported', not crashes
+def _guard_signatures():
+    import functools
+    import inspect
+    import types
+    g = globals()
+    for name, f in list(g.items()):
+        if name.startswith("_") or not isinstance(f, types.FunctionType) or f.__module__ != __name__:
+            continue
+        try:
+            sig = inspect.signature(f)
+        except (TypeError, ValueError):
+            continue
+
+        def make(f=f, sig=sig, name=name):
+            @functools.wraps(f)
+            def wrapped(*a, **k):
+                try:
+                    sig.bind(*a, **k)
+                except TypeError as ex:
+                    raise Unsupported(f"np.{name} called with arguments the shim does not model: {ex}")
+                return f(*a, **k)
+            return wrapped
+        g[name] = make()
+
+
+_guard_signatures()
